@@ -510,15 +510,22 @@ class _Unit:
     """where polygons are built: the closure mapped over the contours (the contour is its argument) or the body of a loop over
     the contours (the contour is the payload of that loop's iterator)"""
 
-    def __init__(self, body, paths, kind):
+    def __init__(self, body, paths, kind, src_param=None):
         self.body, self.paths, self.kind = body, paths, kind
+        self.src_param = src_param      # the assembly lives in a helper: index of the parameter that receives the contour list
+
+    def is_contours(self, v, p):
+        """v derives from the contour list (the result of connect_edges, or the helper's parameter that receives it)"""
+        if self.src_param is not None:
+            return any(y[0] == 'param' and y[1] == self.src_param for y in tree(v, p))
+        return any(y[0] == 'call' and y[1].endswith('connect_edges') for y in tree(v, p))
 
     def iter_kind(self, nxt, p):
         """'contours' / 'hole_ids' / None for the iterator a `next` call advances"""
         for x in self._iter_state(nxt, p):
             if x[0] in ('call', 'pcall') and (x[1].endswith('into_iter') or x[1].endswith('::iter')) and x[2]:
                 src = x[2][0]
-                if any(y[0] == 'call' and y[1].endswith('connect_edges') for y in tree(src, p)):
+                if self.is_contours(src, p) and _last_field(src) != 'hole_ids':
                     return 'contours'
                 if _last_field(src) == 'hole_ids' and self.own(src, p, allow_iter=False):
                     return 'hole_ids'
@@ -547,7 +554,7 @@ class _Unit:
     def _is_contour_next(self, b, p):
         for x in self._iter_state(b, p):
             if x[0] in ('call', 'pcall') and (x[1].endswith('into_iter') or x[1].endswith('::iter')) and x[2]:
-                if any(y[0] == 'call' and y[1].endswith('connect_edges') for y in tree(x[2][0], p)):
+                if self.is_contours(x[2][0], p):
                     return True
         return False
 
@@ -555,7 +562,7 @@ class _Unit:
         """v denotes the whole contour list (closure environment / the local holding connect_edges' result)"""
         if self.kind == 'closure' and any(x[0] == 'param' and x[1] == 1 for x in sym.walk(v)):
             return True
-        return any(y[0] == 'call' and y[1].endswith('connect_edges') for y in tree(v, p))
+        return self.is_contours(v, p)
 
 
 def _hole_ring_ok(unit, v, p, idx_own):
@@ -584,16 +591,31 @@ def check_assemble(ctx, rep, rule='T-assemble'):
     b, ps = rep.explore(ctx, BOOLOP, rule)
     if b is None:
         return
+    # the assembly may live in a private helper that is handed the contour list: then that helper is the anchor and its
+    # parameter plays the part of connect_edges' result
+    src_param = None
+    if not any(e['callee'].endswith('Polygon::<T>::new') for p in ps for e in p.calls(depth0=False)):
+        for p in ps:
+            for e in p.calls():
+                hb_ = f.bodies.get(e['callee'])
+                if hb_ is None or e.get('inlined') or e['callee'].endswith('connect_edges') or '{closure' in e['callee']:
+                    continue
+                ks = [i for i, a in enumerate(e['args']) if any(x[0] == 'call' and x[1].endswith('connect_edges') for x in tree(a, p))]
+                if len(ks) == 1 and src_param is None:
+                    hb2, hps = rep.explore(ctx, e['callee'], rule)
+                    if hb2 is not None:
+                        b, ps, src_param = hb2, hps, ks[0] + 1
+    probe = _Unit(b, ps, 'loop', src_param)
     filt = mapper = None
     for p in ps:
-        for e in p.calls():
+        for e in p.calls(depth0=False):       # also inside a straight-line helper that was inlined
             if e['callee'].endswith('Iterator::filter') and len(e['args']) == 2:
                 c = strip_upd(e['args'][1])
-                if c[0] == 'agg' and c[1] == 'closure' and any(x[0] == 'call' and x[1].endswith('connect_edges') for x in tree(e['args'][0], p)):
+                if c[0] == 'agg' and c[1] == 'closure' and probe.is_contours(e['args'][0], p):
                     filt = c[2]
             if e['callee'].endswith('Iterator::map') and len(e['args']) == 2:
                 c = strip_upd(e['args'][1])
-                if c[0] == 'agg' and c[1] == 'closure' and any(x[0] == 'call' and x[1].endswith('connect_edges') for x in tree(e['args'][0], p)):
+                if c[0] == 'agg' and c[1] == 'closure' and probe.is_contours(e['args'][0], p):
                     mapper = c[2]
     guard_ok = None
     if mapper is not None:
@@ -619,7 +641,7 @@ def check_assemble(ctx, rep, rule='T-assemble'):
             rep.ob(rule, 'only-exterior-contours', False, 'the contours are mapped to polygons without a filter on hole_of',
                    loc=b.loc(b.j['line_lo']), reason='table-row')
     else:
-        unit = _Unit(b, ps, 'loop')
+        unit = _Unit(b, ps, 'loop', src_param)
     # polygon creation sites
     n_poly = 0
     ext_ok = True
